@@ -101,6 +101,8 @@ def install(sched, log):
         def __init__(self, k):
             self.k = k
             self.done = False
+            self.value = None
+            self.error = None
 
         def ready(self):
             # a Submit move that finds the awaited job undelivered changes nothing: the submitting thread stays
@@ -110,6 +112,21 @@ def install(sched, log):
                     return self.done
                 sched.main_turn()
             return True
+
+        # the rest of the AsyncResult interface, in terms of the same moves
+        def wait(self, timeout=None):
+            self.ready()
+
+        def get(self, timeout=None):
+            self.ready()
+            if self.error is not None:
+                raise self.error
+            return self.value
+
+        def successful(self):
+            if not self.done:
+                raise ValueError("%r not ready" % (self,))
+            return self.error is None
 
     class Pool:
         def __init__(self, n_jobs=None, *a, **kw):
@@ -170,16 +187,20 @@ def install(sched, log):
             try:
                 value = func(**kwds)
             except BaseException as e:  # noqa - what the pool hands to the error callback
+                res.error = e
                 log.append(["deliver", k, "error", type(e).__name__])
                 try:
-                    ecb(e)
+                    if ecb is not None:
+                        ecb(e)
                 except BaseException as e2:  # noqa - a raising callback kills the real pool's handler thread
                     log.append(["callback_raised", k, type(e2).__name__])
                     return False
             else:
+                res.value = value
                 log.append(["deliver", k, "value", int(value) if isinstance(value, int) else repr(value)])
                 try:
-                    cb(value)
+                    if cb is not None:
+                        cb(value)
                 except BaseException as e2:  # noqa
                     log.append(["callback_raised", k, type(e2).__name__])
                     return False
